@@ -14,7 +14,8 @@ import time
 from lib import *
 
 WHAT = "a directory scrut created remains after exit / documents share a working directory / a test case did not see the documented environment"
-VARS = ["TESTDIR", "TESTFILE", "TESTSHELL", "TMPDIR", "LANG", "LANGUAGE", "LC_ALL", "TZ", "COLUMNS", "CDPATH", "GREP_OPTIONS", "SCRUT_TEST"]
+VARS = ["TESTDIR", "TESTFILE", "TESTSHELL", "TMPDIR", "LANG", "LANGUAGE", "LC_ALL", "TZ", "COLUMNS", "CDPATH", "GREP_OPTIONS", "SCRUT_TEST",
+        "TMP", "TEMP", "CRAMTMP"]          # the last three: Cram compatibility only
 SEP = "\x1f"
 
 
@@ -187,6 +188,11 @@ def experiment(exp_id, scs):
                         "TZ": "GMT", "COLUMNS": "80", "CDPATH": "", "GREP_OPTIONS": "", "SCRUT_TEST": exp["SCRUT_TEST"]}
                 if sc["env"] == "compat":
                     del want["SCRUT_TEST"]          # documented for the per-test executor only
+                    # Cram compatibility: TMP and TEMP equal TMPDIR; CRAMTMP is the directory above the working directory
+                    # (or the given working directory)
+                    want["TMP"] = e["TMPDIR"]
+                    want["TEMP"] = e["TMPDIR"]
+                    want["CRAMTMP"] = pr["wdir"] if sc["mode"] == "workdir" else os.path.dirname(e["PWD"])
                 if sc["env"] in ("symlink", "relpath"):
                     del want["SCRUT_TEST"]          # (which spelling of the path it carries is not specified)
                 wrong = sorted(v for v, w in want.items() if e[v] != w)
